@@ -498,6 +498,21 @@ class ConstantScoreWrapperMatcher(WrappingMatcher):
     def _replacement(self, newchild):
         return self.__class__(newchild, score=self._score)
 
+    def replace(self, minquality=0):
+        # Every posting scores self._score whatever the child's own scores
+        # are, so the child must not be pruned by quality
+        if minquality and self._score < minquality:
+            return mcore.NullMatcher()
+        r = self.child.replace()
+        if r is not self.child:
+            return self._replacement(r)
+        else:
+            return self
+
+    def skip_to_quality(self, minquality):
+        # The child's block qualities say nothing about this matcher's scores
+        return 0
+
     def max_quality(self):
         return self._score
 
